@@ -7,6 +7,8 @@ UNITS = {
     "spec": [TF],
     "handle_a": [TF], "handle_b": [TF], "handle_b2": [TF], "handle_c": [TF],
     "logger": [TF],
+    "naming": [()],
+    "listing": [()],
 }
 
 # property -> list of (unit, features)
@@ -16,12 +18,13 @@ PROP_UNITS = {
     "C04": [("state", ())],
     "C05": [("handle_a", TF), ("handle_b", TF), ("handle_b2", TF), ("handle_c", TF), ("spec", TF)],
     "C06": [("state", ())],
-    "C07": [("state", ())],
+    "C07": [("state", ()), ("listing", ())],
     "C08": [("state", ())],
     "C09": [("state", ())],
     "C13": [("logger", TF)],
-    "C14": [("state", ())],
+    "C14": [("state", ()), ("listing", ()), ("naming", ())],
     "C15": [("state", ())],
+    "C16": [("naming", ()), ("listing", ()), ("state", ())],
     "C18": [("state", ())],
     "C19": [("state", ()), ("logger", TF)],
 }
